@@ -44,6 +44,7 @@ structure Mon where
   nasAddr : List Bytes := []
   tx : List (String × Bytes × Nat × Nat) := []      -- (server, packet, time of last transmission, transmissions so far)
   now : Nat := 0
+  udp : Bool := false
   queue : List (Nat × QEnt) := []    -- mirror of the reply queues, oldest first
   rxKnown : List (Bytes × Bytes × Bool) := []   -- reference answers of the C library's regexec (rxeval ops)
 
@@ -85,6 +86,39 @@ def digestSS (out : String) (name : String) : Option Nat :=
     if sec.startsWith ("S:" ++ name ++ " ") then
       ((sec.splitOn " ").find? (·.startsWith "ss=")).bind fun t => (t.drop 3).toString.toNat?
     else none
+
+/-- C17 on the implementation's digest: every live request's reference count equals the number of
+    places that point at it (slots, duplicate caches, reply queues; plus the UDP reader's spare request),
+    and nothing points at a request that is not live -/
+def refVerdict (out : String) (udp : Bool) : String :=
+  let secs := sections out
+  let live : List (String × Nat) := (secs.filter (·.startsWith "R")).flatMap fun sec =>
+    ((sec.splitOn " ").filterMap fun t => match t.splitOn ":" with
+      | [n, c] => if n.startsWith "r" then c.toNat?.map fun c => (n, c) else none
+      | _ => none)
+  let refsIn (sec : String) : List String :=
+    if sec.startsWith "S:" then
+      ((sec.splitOn " ").filter (·.startsWith "slots=")).flatMap fun t =>
+        ((t.drop 6).toString.splitOn ",").filterMap fun e => match e.splitOn ":" with
+          | [_, r, _, _] => if r = "r-1" then none else some r
+          | _ => none
+    else if sec.startsWith "C" && !sec.endsWith ":gone" then
+      ((sec.splitOn " ").filter fun t => t.startsWith "cache=" || t.startsWith "q=").flatMap fun t =>
+        (((t.splitOn "=").getD 1 "").splitOn ",").filterMap fun e =>
+          if e.isEmpty then none else match e.splitOn ":" with
+            | [_, r, _] => some r
+            | [r] => some r
+            | _ => none
+    else []
+  let refs := secs.flatMap refsIn
+  if refs.any (· = "r-1") then "bad C17:pointer-to-an-untracked-request-object"
+  else match refs.find? fun r => !(live.any (·.1 = r)) with
+    | some r => "bad C17:reference-to-released-request:" ++ r
+    | none =>
+      let spare := (live.filter fun (n, c) => (refs.filter (· = n)).length = 0 && c = 1).length
+      match live.find? fun (n, c) => c ≠ (refs.filter (· = n)).length && !((refs.filter (· = n)).length = 0 && c = 1 && udp && spare ≤ 1) with
+      | some (n, c) => s!"bad C17:reference-count-{c}-of-{n}-differs-from-its-{(refs.filter (· = n)).length}-holders"
+      | none => "ok"
 
 def cliConfOf (m : Mon) (k : Nat) : Option World.CliConf :=
   (m.clientConf[k]?).bind fun n => m.cfg.clis.find? (·.name = strBytes n)
@@ -252,7 +286,7 @@ def resync (m : Mon) (out : String) : Mon :=
   { m with qlen := digestQlens out, slots := sl,
            fwds := m.fwds.filter fun f => (sl.find? (·.1 = f.srv)).any fun s => s.2.any (·.1 = f.slot) }
 
-def monOp (m : Mon) (op : String) (args : List String) (impl : List String) (trToks : List String := []) : Mon × String :=
+def monOp1 (m : Mon) (op : String) (args : List String) (impl : List String) (trToks : List String := []) : Mon × String :=
   let out := " ".intercalate impl
   if impl.any (·.startsWith "crash:") || impl == ["skipped"] then (m, "bad sanitizer-or-crash") else
   match op, args with
@@ -449,13 +483,28 @@ def monOp (m : Mon) (op : String) (args : List String) (impl : List String) (trT
     let edges := impl.drop 1
     let bad := edges.filterMap fun e =>
       let e' := (e.splitOn "!same").head!
-      match e'.splitOn ">" with
+      match e'.splitOn "~" with
       | [h, a] => (match Locks.edgeOk h a with
                    | some true => none
                    | some false => some ("bad C17:lock-order-violation:" ++ e)
                    | none => some ("bad C17:unclassified-lock-expression:" ++ e))
       | _ => some ("bad C17:unparsable-lock-pair:" ++ e)
     (m, bad.head?.getD "ok")
+  | "idle", [] =>
+    -- all clients are gone and every timer has run: only the servers' own status probes (slot 0) may be alive
+    let secs := sections out
+    let live := (secs.filter (·.startsWith "R")).flatMap fun sec =>
+      (sec.splitOn " ").filterMap fun t => match t.splitOn ":" with
+        | [n, _] => if n.startsWith "r" then some n else none
+        | _ => none
+    let probes := (secs.filter (·.startsWith "S:")).flatMap fun sec =>
+      ((sec.splitOn " ").filter (·.startsWith "slots=")).flatMap fun t =>
+        ((t.drop 6).toString.splitOn ",").filterMap fun e => match e.splitOn ":" with
+          | ["0", r, _, _] => some r
+          | _ => none
+    (resync m out, match live.find? fun n => !probes.contains n with
+      | some n => "bad C17:request-retained-after-its-client-is-gone-and-its-timers-expired:" ++ n
+      | none => "ok")
   | "tick", [n] => ({ m with now := m.now + (n.toNat?).getD 0 }, "ok")
   | "radput", _ => (m, "ok")
   | "reset", [name] => (resync { m with tx := m.tx.filter (·.1 ≠ name) } out, "ok")   -- a reset lets everything be sent again
@@ -465,5 +514,14 @@ def monOp (m : Mon) (op : String) (args : List String) (impl : List String) (trT
     | some k => (resync { m with fwds := m.fwds.filter (·.client ≠ k), queue := m.queue.filter (·.1 ≠ k) } out, "ok")
     | none => (m, "bad-op")
   | _, _ => (m, "bad-op")
+
+def monOp (m : Mon) (op : String) (args : List String) (impl : List String) (trToks : List String := []) : Mon × String :=
+  let (m', v) := monOp1 m op args impl trToks
+  let udp := op = "udplisten" || (m.udp && op ≠ "cfg")
+  let m' := { m' with udp := udp }
+  if v ≠ "ok" then (m', v)
+  else if ["cfg", "client", "rq", "reply", "writer", "tick", "reset", "srvstate", "pop", "rmclient", "udplisten", "udpsend", "idle"].contains op then
+    (m', refVerdict (" ".intercalate impl) udp)
+  else (m', v)
 
 end Drive
